@@ -39,6 +39,8 @@
 #include <unordered_set>
 #include <utility>
 #include <variant>
+#include <thread>
+#include <exception>
 #include <vector>
 #include <Eigen/Core>
 #include <Eigen/Dense>
@@ -211,7 +213,7 @@ static std::string findSeedIndex(const RandomEngine & e, const std::vector<unsig
     for (size_t k = 0; k < table.size(); ++k) if (e == RandomEngine(table[k])) return std::to_string(k);
     return "none";
 }
-static void scenarioProg(vio::Cursor & c, vio::Out & o) {
+static void scenarioProg(vio::Cursor & c, vio::Out & o, bool threads) {
     size_t pre[2] = { c.nextSize(), c.nextSize() };
     unsigned root = (unsigned) c.nextSize();
     size_t nops = c.nextSize();
@@ -229,14 +231,8 @@ static void scenarioProg(vio::Cursor & c, vio::Out & o) {
     }
     std::map<unsigned, std::vector<unsigned>> table;
     for (unsigned r : roots) if (!table.count(r)) { RandomEngine e(r); auto & v = table[r]; for (size_t i = 0; i < nseedops + 2; ++i) v.push_back(e()); }
-    std::vector<Run> runs;
-    for (int k = 0; k < 2; ++k) {
-        Run r;
-        {   // unrelated history
-            for (size_t i = 0; i < pre[k]; ++i) (void) Seeder::getSeed();
-            if (pre[k] % 2) { MDP::Policy p(2, 2); for (size_t i = 0; i < pre[k]; ++i) (void) p.sampleAction(0); }
-        }
-        Seeder::setRootSeed(root);
+    // the program proper (everything after the initial setRootSeed(root))
+    auto program = [&](Run & r) {
         unsigned cur = root;
         std::vector<Obj> objs;
         for (const auto & op : ops) {
@@ -249,6 +245,25 @@ static void scenarioProg(vio::Cursor & c, vio::Out & o) {
             default: throw std::logic_error("bad op");
             }
         }
+    };
+    std::vector<Run> runs;
+    // run 0 / run 1: in the main thread after two different unrelated prefixes.
+    // thread variant: runs 1 and 2 execute the program inside a std::thread worker that is joined at once
+    // (setRootSeed is called by the main thread): sequential threads do not change the sequence of calls.
+    for (int k = 0; k < (threads ? 3 : 2); ++k) {
+        Run r;
+        {   // unrelated history
+            size_t n = pre[k % 2];
+            for (size_t i = 0; i < n; ++i) (void) Seeder::getSeed();
+            if (n % 2) { MDP::Policy p(2, 2); for (size_t i = 0; i < n; ++i) (void) p.sampleAction(0); }
+        }
+        Seeder::setRootSeed(root);
+        if (threads && k > 0) {
+            std::exception_ptr err;
+            std::thread worker([&] { try { program(r); } catch (...) { err = std::current_exception(); } });
+            worker.join();
+            if (err) std::rethrow_exception(err);
+        } else program(r);
         runs.push_back(r);
     }
     emitRuns(o, runs);
@@ -278,6 +293,30 @@ static void scenarioAmdp(vio::Cursor & c, vio::Out & o) {
         (void) d1(u);
         body(r);
     }));
+    emitRuns(o, runs);
+}
+// amdpkeep <root> <nBeliefs> <B1> <B2> <nBeliefs2> <pomdp1> <pomdp2> <nb> beliefs(S1 entries each)
+//   what an object RETURNED must not change when the producing object is reconfigured or reused: the
+//   Discretizer (and MDP) returned by AMDP::discretizeDense(pomdp1) with B1 buckets is probed
+//   run 0 right away; run 1 after setEntropyBuckets(B2); run 2 after setBeliefSize(nBeliefs2);
+//   run 3 after the same AMDP object discretized pomdp2 (sparse); run 4 after setEntropyBuckets(1).
+static void scenarioAmdpKeep(vio::Cursor & c, vio::Out & o) {
+    unsigned root = (unsigned) c.nextSize(); size_t nB = c.nextSize(), B1 = c.nextSize(), B2 = c.nextSize(), nB2 = c.nextSize();
+    PomdpT t1 = readPomdp(c), t2 = readPomdp(c);
+    size_t nb = c.nextSize();
+    std::vector<POMDP::Belief> bs;
+    for (size_t i = 0; i < nb; ++i) { POMDP::Belief b(t1.S); for (size_t s = 0; s < t1.S; ++s) b[s] = c.nextDouble(); bs.push_back(b); }
+    Seeder::setRootSeed(root);
+    auto m1 = mkPomdp(t1); auto m2 = mkPomdp(t2);
+    POMDP::AMDP amdp(nB, B1);
+    auto [mdp1, disc1] = amdp.discretizeDense(m1);
+    auto probe = [&](Run & r) { for (const auto & b : bs) r.u(disc1(b)); dumpModel(r, mdp1); };
+    std::vector<Run> runs(5);
+    probe(runs[0]);
+    amdp.setEntropyBuckets(B2);   probe(runs[1]);
+    amdp.setBeliefSize(nB2);      probe(runs[2]);
+    { auto second = amdp.discretizeSparse(m2); (void) second; } probe(runs[3]);
+    amdp.setEntropyBuckets(1);    probe(runs[4]);
     emitRuns(o, runs);
 }
 // amdpm <root> <nBeliefs> <B1> <pomdp1> <B2> <pomdp2>: the whole AMDP::discretizeDense, same protocol
@@ -678,7 +717,9 @@ static void scenarioRils(vio::Cursor & c, vio::Out & o) {
 int main(int argc, char ** argv) {
     return vio::runCases(argc, argv, [](vio::Cursor & c, vio::Out & o) {
         const std::string kind = c.next();
-        if (kind == "prog") scenarioProg(c, o);
+        if (kind == "prog") scenarioProg(c, o, false);
+        else if (kind == "thread") scenarioProg(c, o, true);
+        else if (kind == "amdpkeep") scenarioAmdpKeep(c, o);
         else if (kind == "amdp") scenarioAmdp(c, o);
         else if (kind == "amdpm") scenarioAmdpModel(c, o);
         else if (kind == "vi") scenarioVI(c, o, false);
